@@ -398,6 +398,7 @@ impl<E: Elem> World<E> {
             None => { out.oracle_fail(&format!("{op}: panicked")); "panic".to_string() }
             Some(Err(e)) => {
                 if n < extent { out.oracle_fail(&format!("{op}: {} for a valid {} number", err_name(e), if rows { "row" } else { "column" })); }
+                else if e != matreex::Error::IndexOutOfBounds { out.oracle_fail(&format!("{op}: {} instead of IndexOutOfBounds for n = {n} with {extent} {}", err_name(e), if rows { "rows" } else { "columns" })); }
                 format!("err {}", err_name(e))
             }
             Some(Ok(())) => {
